@@ -6,9 +6,11 @@
    modelled).  The evaluators mirror InvPath.eval, SequencePath.eval
    (_eval_seq, _eval_seq_bw and the choice of direction), AlternativePath.eval,
    MulPath.eval (_fwd, _bwd, _all_fwd_paths, the [seen] set shared by the whole
-   recursion, the zero-length preamble that is yielded outside the [done]
-   filter, the [done] filter) and NegatedPath.eval, as they are after the
-   "fix:" commit for finding F4a (bound ends tested with [is not None]).
+   recursion, the zero-length
+   pair that is entered into [done] before it is yielded, the [done] filter) and
+   NegatedPath.eval, as they are after the "fix:" commits for findings F4a
+   (bound ends tested with [is not None]), F4d (_eval_seq_bw recurses into
+   itself) and F4b (the zero-length pair is recorded in [done]).
 
    Sub-paths are evaluated through [graph.triples((s, path, o))], i.e. through
    the same evaluator again; the model is therefore written over *evaluator
@@ -82,7 +84,24 @@ Fixpoint seq_fw (l : list ev) (s o : option term) : res (list pr) :=
 
 Definition ev_dummy : ev := fun _ _ => Raised.
 
-Definition seq_bw (l : list ev) (s o : option term) : res (list pr) :=
+(* _eval_seq_bw, on the reversed list of steps (paths[-1] first); since the
+   F4d fix it recurses into itself on paths[:-1] *)
+Fixpoint seq_bwr (rl : list ev) (s o : option term) : res (list pr) :=
+  match rl with
+  | [] => Raised                                   (* paths[0]: IndexError *)
+  | f :: rest =>
+      match rest with
+      | [] => f s o
+      | _ => bind (f None o) (fun xs =>
+               rconcat (map (fun sz : pr =>
+                  rmap (map (fun r : pr => (fst r, snd sz))) (seq_bwr rest s (Some (fst sz)))) xs))
+      end
+  end.
+
+Definition seq_bw (l : list ev) (s o : option term) : res (list pr) := seq_bwr (rev l) s o.
+
+(* the code before the F4d fix: the remaining steps were evaluated forwards *)
+Definition hist_seq_bw (l : list ev) (s o : option term) : res (list pr) :=
   match removelast l with
   | [] => match l with f :: _ => f s o | [] => Raised end
   | init => bind (last l ev_dummy None o) (fun xs =>
@@ -216,7 +235,13 @@ Definition mul_raw (g : graph) (n : nat) (f : ev) (m : mulmod) (s o : option ter
   | None, None => all_fwd g f (mod_zero m) (mod_more m) n
   end.
 
+(* [done] holds the zero-length pair before the search starts: the yields are the
+   preamble followed by the first occurrences of the search's pairs not yet in [done] *)
 Definition ev_mul (g : graph) (n : nat) (f : ev) (m : mulmod) : ev :=
+  fun s o => rmap (fun r => dedup_acc pr_eqb (mul_pre (mod_zero m) s o) r) (mul_raw g n f m s o).
+
+(* the code before the F4b fix: the preamble was yielded outside the [done] filter *)
+Definition hist_ev_mul (g : graph) (n : nat) (f : ev) (m : mulmod) : ev :=
   fun s o => rmap (fun r => mul_pre (mod_zero m) s o ++ dedup pr_eqb r) (mul_raw g n f m s o).
 
 (* Graph.triples((s, path, o)) *)
@@ -390,50 +415,9 @@ Fixpoint has_empty_neg (p : path) : bool :=
   | Neg l => is_nil l
   end.
 
-(* can the path match with zero length? *)
-Fixpoint nullable (p : path) : bool :=
-  match p with
-  | Iri _ => false
-  | Inv a => nullable a
-  | Seq l => forallb (fun a => nullable a) l
-  | Alt l => existsb (fun a => nullable a) l
-  | Mul a m => mod_zero m || nullable a
-  | Neg _ => false
-  end.
-
-(* a sequence of three or more steps that can all match with zero length *)
-Fixpoint has_seq3 (p : path) : bool :=
-  match p with
-  | Iri _ => false
-  | Inv a => has_seq3 a
-  | Seq l => (Nat.leb 3 (length l) && forallb (fun a => nullable a) l) || existsb (fun a => has_seq3 a) l
-  | Alt l => existsb (fun a => has_seq3 a) l
-  | Mul a _ => has_seq3 a
-  | Neg _ => false
-  end.
-
-Definition end_nd (g : graph) (e : option term) : bool :=
-  match e with None => true | Some a => memb N.eqb a (nodes g) end.
-
 (* the result is a closure: MulPath at the top, possibly under inversions *)
 Fixpoint closure_top (p : path) : bool :=
   match p with Mul _ _ => true | Inv a => closure_top a | _ => false end.
-
-(* F4b: the zero-length preamble pair is produced again by the search *)
-Fixpoint dup_trigger (g : graph) (p : path) (s o : option term) : bool :=
-  match p with
-  | Inv a => dup_trigger g a o s
-  | Mul a m =>
-      mod_zero m &&
-      match (match s with Some x => Some x | None => o end) with
-      | None => false
-      | Some x =>
-          end_ok s x && end_ok o x &&
-          memb pr_eqb (x, x)
-               (rel_set (universe g s o) g (match m with ZeroOrOne => a | _ => Mul a OneOrMore end))
-      end
-  | _ => false
-  end.
 
 (* what translatePath does to the path (SPARQL route): ^iri inside a negated
    set stays an untranslated parser node; !() raises at translation time *)
@@ -453,12 +437,10 @@ Definition model_obs (c : case) : obs :=
     else eval (c_g c) (fuel (c_g c)) (xlate (c_path c)) (c_s c) (c_o c)
   else eval (c_g c) (fuel (c_g c)) (c_path c) (c_s c) (c_o c).
 
-(* trigger numbers: 1 = F4b, 2 = F4c, 3 = F4d, 4 = F4e *)
+(* trigger numbers: 2 = F4c, 4 = F4e (1 = F4b and 3 = F4d are repaired) *)
 Definition kf (c : case) : N :=
   if c_sparql c && (has_ninv (c_path c) || has_empty_neg (c_path c)) then 4
   else if has_ninv (c_path c) then 2
-  else if has_seq3 (c_path c) && negb (end_nd (c_g c) (c_s c) && end_nd (c_g c) (c_o c)) then 3
-  else if dup_trigger (c_g c) (c_path c) (c_s c) (c_o c) then 1
   else 0.
 
 (* multiset equality of yields *)
